@@ -4,7 +4,7 @@ CONSTANTS MaxCalls = 99
           ExtMax = 99
           ExtDepth = 99
           ZeroStatusFix = TRUE
-          InfoFix = FALSE
+          InfoFix = TRUE
 INVARIANTS Judge Fidelity
 POSTCONDITION AllConsumed
 CHECK_DEADLOCK FALSE
